@@ -1047,8 +1047,12 @@ class WorkflowConductor(object):
                         # Remove the root context to avoid overwriting vars.
                         out_ctx_idxs.remove(0)
 
-                        # Extend the outgoing context from this task.
-                        staged_next_task["ctxs"]["in"].extend(out_ctx_idxs)
+                        # Extend the outgoing context from this task. Skip the context that the
+                        # staged task already has from another inbound task transition so the
+                        # same context is not applied again over the more recent ones.
+                        staged_next_task["ctxs"]["in"].extend(
+                            [i for i in out_ctx_idxs if i not in staged_next_task["ctxs"]["in"]]
+                        )
 
                         # Add a backref for the current task in the next task.
                         staged_next_task["prev"][backref] = task_state_idx
